@@ -178,15 +178,38 @@ mod register {
                     if !std::mem::replace(&mut first, false) {
                         buff.push(',');
                     }
-                    buff.push('\"');
-                    buff.push_str(value);
-                    buff.push('\"');
+                    push_js_string(&mut buff, value);
                 }
                 buff.push_str("]}");
             }
             buff.push_str("];");
             buff
         }
+    }
+
+    /// Push `value` as a JS string literal that is also safe inside a `<script>` element:
+    /// quotes, backslashes, line terminators and control characters are escaped,
+    /// `<` and `>` too so that the value can't close the element (`</script>`) or open a comment (`<!--`).
+    fn push_js_string(buff: &mut String, value: &str) {
+        use std::fmt::Write;
+        buff.push('\"');
+        for c in value.chars() {
+            match c {
+                '\"' => buff.push_str("\\\""),
+                '\\' => buff.push_str("\\\\"),
+                '\n' => buff.push_str("\\n"),
+                '\r' => buff.push_str("\\r"),
+                '\t' => buff.push_str("\\t"),
+                '<' | '>' | '\u{2028}' | '\u{2029}' => {
+                    let _ = write!(buff, "\\u{:04X}", c as u32);
+                }
+                c if (c as u32) < 0x20 => {
+                    let _ = write!(buff, "\\u{:04X}", c as u32);
+                }
+                c => buff.push(c),
+            }
+        }
+        buff.push('\"');
     }
 }
 
